@@ -11,7 +11,7 @@ CONSTANTS
  MaxServes = 1
  MaxApplies = 1
  Faults = FALSE
- Mutations = {"crossDuid", "crossDuidCreate", "crossDuidSubscribe", "crossDuidSubCreate", "crossCollection", "sameKeyOtherCollection", "resetOther", "resetOwn"}
+ Mutations = {"crossDuid", "crossDuidCreate", "crossDuidSubscribe", "crossDuidSubCreate", "crossCollection", "crossRegister", "sameKeyOtherCollection", "resetOther", "resetOwn"}
 INVARIANT LogNoRepeats
 INVARIANT LogEndRecorded
 INVARIANT PerClientOrder
